@@ -250,7 +250,8 @@ def validate_traces(mod, constdefs, cfg_constants, traces, procs=16, timeout=360
             if missing and os.environ.get('VERIF_DEBUG'):
                 shutil.copy(f, '/tmp/verif-failed-chunk.json')
             if missing:
-                raise MachineryError('no verdict for traces %s\n%s' % (missing[:5], r.out[-6000:]))
+                errs = [ln for ln in r.out.splitlines() if ln.startswith('Error:')][:3]
+                raise MachineryError('no verdict for traces %s\n%s\n%s' % (missing[:5], r.out[-6000:], '\n'.join(errs)))
             return verdicts
     out = {}
     with ThreadPoolExecutor(max_workers=procs) as ex:
